@@ -39,6 +39,7 @@ func (fr *frame) effectsOf(blocks map[*ssa.BasicBlock]bool) (keys map[string]boo
 		return v, nil
 	}
 	fr.nonAllocWrites = map[string]bool{}
+	fr.funcFreshWrites = map[string]bool{}
 	markStore := func(addrV ssa.Value) {
 		base, path := baseOf(addrV)
 		fromLoopAlloc := false
@@ -95,6 +96,11 @@ func (fr *frame) effectsOf(blocks map[*ssa.BasicBlock]bool) (keys map[string]boo
 				if mt, ok := in.Map.Type().Underlying().(*types.Map); ok {
 					mv, md, _, _ := fc.mapComps(mt)
 					keys[mv], keys[md] = true, true
+					if _, fresh := in.Map.(*ssa.MakeMap); !fresh {
+						fr.nonAllocWrites[mv], fr.nonAllocWrites[md] = true, true
+					} else {
+						fr.funcFreshWrites[mv], fr.funcFreshWrites[md] = true, true
+					}
 				}
 			case *ssa.Alloc:
 				keys["TOP"] = true
@@ -326,9 +332,14 @@ func (fr *frame) run(entry *State, entryReach string) {
 				}
 				pre := fc.lookup(st, k)
 				st.comp[k] = fc.freshConst(fmt.Sprintf("%slh%d_%s", fr.prefix, b.Index, k), fc.compSort[k])
-				if (strings.HasPrefix(k, "H:") || strings.HasPrefix(k, "C:")) && !fr.nonAllocWrites[k] {
-					// the loop writes this component only at objects it allocates itself: older objects are unchanged
-					fc.fact("", "(forall ((r Int)) (! (=> (< r %s) (= (select %s r) (select %s r))) :pattern ((select %s r))))", preTop, st.comp[k], pre, st.comp[k])
+				if (strings.HasPrefix(k, "H:") || strings.HasPrefix(k, "C:") || strings.HasPrefix(k, "MV:") || strings.HasPrefix(k, "MD:")) && !fr.nonAllocWrites[k] {
+					// the loop writes this component only at objects it allocates itself (or that this function
+					// allocated): older objects are unchanged
+					bound := preTop
+					if fr.funcFreshWrites[k] {
+						bound = fc.entry.comp["TOP"]
+					}
+					fc.fact("", "(forall ((r Int)) (! (=> (< r %s) (= (select %s r) (select %s r))) :pattern ((select %s r))))", bound, st.comp[k], pre, st.comp[k])
 				}
 			}
 			for al := range locals {
